@@ -215,8 +215,46 @@ def check_seeds(ctx, c):
                 c["kind"], c["s1"], c["s2"]), key="seeds:no-effect")
 
 
+# ---- coarse-grained runs are runs too ------------------------------------------------------------------------------
+
+def strat_cg(ctx):
+    return st.fixed_dictionaries({"script": script_st(), "kind": st.sampled_from(["gillespie", "tauleap", "euler"]),
+                                  "map": st.sampled_from(["identity", "pairs"])})
+
+
+def check_cg(ctx, c):
+    import strengths as S
+    sp = c["script"]["sys"]["space"]
+    if sp["type"] != "grid":
+        ctx.skip("coarse-graining applies to grids")
+        return
+    if any(v == "periodical" for v in sp["bc"].values()):
+        ctx.skip("coarse-graining is only offered for reflecting grids")
+        return
+    n = sp["w"] * sp["h"] * sp["d"]
+    envs = sp["cell_env"]
+    if c["map"] == "pairs" and len(set(envs)) > 1:
+        cgmap = list(range(n))          # groups must not mix environments
+    elif c["map"] == "pairs":
+        cgmap = [i // 2 for i in range(n)]
+    else:
+        cgmap = list(range(n))
+    ctx.note(c, c["kind"] != "euler" and n >= 2, ["cg:" + c["kind"], "cg-map:" + ("identity" if cgmap == list(range(n)) else "pairs")])
+    script = sut_call("build script", B.build_script, c["script"])
+    outs = []
+    for rep in range(3):
+        o = sut_call("simulate_script(cgmap)", S.simulate_script, script, sim.engine(c["kind"]), cgmap=list(cgmap))
+        outs.append([float(v) for v in o.t.value] + [float(v) for v in o.data.value])
+    for rep in (1, 2):
+        a, b = outs[0], outs[rep]
+        if len(a) != len(b) or any(bits(x) != bits(y) and not (x != x and y != y) for x, y in zip(a, b)):
+            raise Violation("%s: simulate_script(script, cgmap=%s) with seed %r: repetition %d differs from the first run (%d vs %d values)" % (
+                c["kind"], "identity" if cgmap == list(range(n)) else "pairs", c["script"]["seed"], rep + 1, len(a), len(b)), key="cg:repeat")
+
+
 FACETS = [
     Facet("schedules", check_sched, strategy=strat_sched, examples=(320, 8000), shards=(16, 16), setup=setup, native=True),
     Facet("stored_script", check_stored, strategy=strat_stored, examples=(300, 6000), shards=(4, 16), setup=setup, native=True),
+    Facet("coarse_grained", check_cg, strategy=strat_cg, examples=(600, 8000), shards=(4, 16), setup=setup, native=True),
     Facet("seeds", check_seeds, strategy=strat_seeds, examples=(300, 6000), shards=(4, 16), setup=setup, native=True),
 ]
